@@ -5,6 +5,7 @@ CHECK = {
     "assumptions": [
         "unit c12-enum: requests are synthetic *http.Request values handed to the middleware stack rawResponder(referenceServerChecks(inner)) exactly as createServer installs it; net/http's own parsing (header canonicalisation, whitespace trimming, trailer delivery) is simulated, not exercised",
         "unit c12-chain: the servers createServer builds (reference mode, no tracer) listen on 127.0.0.1:0 and are driven by net/http's HTTP/1.1 client and x/net/http2's client (h2c prior knowledge, h2 over TLS with a throw-away server certificate); HTTP/3 and client certificates are not exercised over real connections (c12-enum covers them synthetically); request bodies are one well-formed empty message, whatever the procedure answers is not judged, only the feedback",
+        "test names are any text HTTP can carry unchanged as a header value (no leading/trailing whitespace, no CR/LF); in c12-chain names are the plain ASCII 'C12 Suite/...' ones",
         "the 'actual' side is restricted to what a client can put on the wire: GET only for Connect unary, client certificate only inside TLS, HTTP/3 only with TLS; a gRPC request carries 'te: trailers'",
         "the client-certificate aspect is compared only when both the expectation and the request use TLS",
         "a feedback line 'mentions' an aspect if, after the test-name prefix, it contains the aspect's word (version, method, protocol, codec, compression, tls/plain-text, cert)",
@@ -13,7 +14,7 @@ CHECK = {
     "manifest": {
         "engine": "ENUM",
         "technique": "bounded-exhaustive enumeration against a reference model",
-        "text": "The real reference-server middleware is driven, without network, with every pair of (expected side: 3 HTTP versions x GET/POST x 3 protocols x 2 codecs x 6 compressions x TLS x client cert = 864) x (every request a client can produce, incl. Connect unary/stream/GET framing, bare gRPC content types, identity spelled out = 672) and judged by a truth table from the property text: no feedback iff all aspects agree, at least one line `<test name>: ...` mentioning every deviating aspect, every line attributable to a deviating aspect; plus same test twice, name histories up to length 4, overlapping requests (2 and 3 requests of the same / of different test names in flight together, the inner handler parked on a channel, released in every order: every request after the first of a name is flagged at the moment it arrives, the others are not; channel-forced schedule, no timing), HTTP trailers, missing/empty test name (inner handler not called, error response). Timeout headers: per protocol every string of length <=4 (quick) / <=6 (thorough) over {0,1,9,H,M,S,m,u,n,+,-,space,x}, digit strings of length 7..12 with every unit / none / a bad unit, and computed boundary numbers, against a math/big grammar-and-value model (unit c12-enum). Unit c12-chain runs the same truth table through the handler chain createServer really installs (BidiStream-over-HTTP/1.1 wrapper, mux, checks, raw responder, CORS, h2c) over real connections: 6 connection kinds (HTTP/1.1 client -> HTTP/1.1 server, h2c -> HTTP/2 server, HTTP/1.1 client -> HTTP/2 server, each plain and over TLS) x all 6 RPC procedure paths (Unary, IdempotentUnary, ClientStream, ServerStream, BidiStream, Unimplemented) x 5 protocol shapes x 2 codecs x 2 (thorough: 6) compressions = 720 (2160) requests, each against 144 (thorough: 648, incl. expected client cert) expected sides; feedback lines are attributed by the unique test name after graceful shutdown. Timeout model: accepted iff in the protocol's grammar, context value = digits x unit saturating at MaxInt64 ns, header gone at the inner handler, no context deadline, createRequestInfo echoes the milliseconds.",
+        "text": "The real reference-server middleware is driven, without network, with every pair of (expected side: 3 HTTP versions x GET/POST x 3 protocols x 2 codecs x 6 compressions x TLS x client cert = 864) x (every request a client can produce, incl. Connect unary/stream/GET framing, bare gRPC content types, identity spelled out = 672) and judged by a truth table from the property text: no feedback iff all aspects agree, at least one line `<test name>: ...` mentioning every deviating aspect, every line attributable to a deviating aspect; test names as a dimension (34-token alphabet: printf verbs %d %s %v %[1]d %*d ..., %%, 100%, lone %, blank, ':', ': ', quote, backslash, braces, non-ASCII; token at the start / in the middle / at the end of the name and every ordered token pair, x one request per protocol x expected sides, plus repeat, history, overlap, trailers and invalid-timeout cases under such names: every feedback line starts with exactly `<name>: `); plus same test twice, name histories up to length 4, overlapping requests (2 and 3 requests of the same / of different test names in flight together, the inner handler parked on a channel, released in every order: every request after the first of a name is flagged at the moment it arrives, the others are not; channel-forced schedule, no timing), HTTP trailers, missing/empty test name (inner handler not called, error response). Timeout headers: per protocol every string of length <=4 (quick) / <=6 (thorough) over {0,1,9,H,M,S,m,u,n,+,-,space,x}, digit strings of length 7..12 with every unit / none / a bad unit, and computed boundary numbers, against a math/big grammar-and-value model (unit c12-enum). Unit c12-chain runs the same truth table through the handler chain createServer really installs (BidiStream-over-HTTP/1.1 wrapper, mux, checks, raw responder, CORS, h2c) over real connections: 6 connection kinds (HTTP/1.1 client -> HTTP/1.1 server, h2c -> HTTP/2 server, HTTP/1.1 client -> HTTP/2 server, each plain and over TLS) x all 6 RPC procedure paths (Unary, IdempotentUnary, ClientStream, ServerStream, BidiStream, Unimplemented) x 5 protocol shapes x 2 codecs x 2 (thorough: 6) compressions = 720 (2160) requests, each against 144 (thorough: 648, incl. expected client cert) expected sides; feedback lines are attributed by the unique test name after graceful shutdown. Timeout model: accepted iff in the protocol's grammar, context value = digits x unit saturating at MaxInt64 ns, header gone at the inner handler, no context deadline, createRequestInfo echoes the milliseconds.",
         "note": "Synthetic requests (no real HTTP parsing); keyword-based notion of 'mentions the aspect'; the inner handler is a recorder, createRequestInfo is called on the context it receives as impl.go does.",
         "design_ref": "DESIGN.md §2.2, §4 C12",
     },
